@@ -52,11 +52,14 @@ def run(p, script, seed=0, frame=True, permute=None):
     ev = []
     maxdf = 2 + sum(len(s[1]) for s in script if len(s) > 1)
 
+    from .containers import feeder_of
+    feeder = feeder_of(p, "frame" if frame else "array")
+
     def wrap(rows):
         a = np.array(rows, dtype=float)
         if permute is not None:
             a = a[permute(len(a))]
-        return pd.DataFrame(a, columns=["f%d" % i for i in range(a.shape[1])]) if frame else a
+        return feeder.batch(a.tolist())
 
     for t, s in enumerate(script):
         np.random.seed((seed * 7919 + t) % (2 ** 32))
